@@ -48,6 +48,9 @@ def run(ctx):
         for pool in ("numbers", "texts", "misc"):
             vec, r = ctx.vectors("ArgValsGen", "ArgValsGen_%s.cfg" % pool, "av_" + pool)
             ctx.bounds[pool] = r.distinct
+            # one block with every single value of the pool (all same-typed scalar pairs meet), one with all pairs of values
+            singles = [v for v in vec if len(v["list"]) == 1]
+            blocks.append(dict(forms=[v["forms"][0] for v in singles], owner=list(range(1, len(singles) + 1))))
             rng.shuffle(vec)
             if not thorough:
                 vec = vec[:1500]
